@@ -88,6 +88,10 @@ typedef struct {
 	uint64_t        seq;
 	bool            late;   // callbacks installed only after endpoints and pipes exist
 	pthread_mutex_t regmtx; // one thread at a time changes this socket's callbacks
+	// a slow callback: the next dwell_n callbacks for event dwell_ev stay
+	// inside until dwell_release is set (2 s at most); dwelling: 1 inside, 2 left
+	atomic_int      dwell_n, dwelling, dwell_release;
+	int             dwell_ev;
 } tsock;
 
 static tsock sockring[RING];
@@ -131,6 +135,12 @@ pipe_cb(nng_pipe p, nng_pipe_ev ev, void *arg)
 	}
 	pthread_mutex_unlock(&evmtx);
 
+	if ((int) ev == ts->dwell_ev && take_one(&ts->dwell_n)) {
+		uint64_t end = vf_now_ns() + 2000000000ULL;
+		atomic_store(&ts->dwelling, 1);
+		while (!atomic_load(&ts->dwell_release) && vf_now_ns() < end) vf_usleep(200);
+		atomic_store(&ts->dwelling, 2);
+	}
 	if (ev == NNG_PIPE_EV_ADD_PRE) {
 		int n = atomic_fetch_add(&ts->n_pre, 1);
 		if (take_one(&ts->force_pre)) {
@@ -875,9 +885,8 @@ check_log(const char *mode, const char *fam)
 // sum of an endpoint's failure counters (a failed accept / a failed dial
 // increments exactly one of them), -1 when the endpoint is gone
 static long
-ep_failures(bool dialer, nng_dialer d, nng_listener l)
+ep_stat_sum(bool dialer, nng_dialer d, nng_listener l, const char *const *names)
 {
-	static const char *names[] = { "refused", "disconnect", "other", "timeout", "proto", "auth", "oom", NULL };
 	nng_stat          *st = NULL;
 	const nng_stat    *es;
 	long               sum = -1;
@@ -893,6 +902,22 @@ ep_failures(bool dialer, nng_dialer d, nng_listener l)
 	}
 	nng_stats_free(st);
 	return sum;
+}
+
+static long
+ep_failures(bool dialer, nng_dialer d, nng_listener l)
+{
+	static const char *const names[] = { "refused", "disconnect", "other", "timeout", "proto", "auth", "oom", NULL };
+	return ep_stat_sum(dialer, d, l, names);
+}
+
+// dials of a dialer that came to an end, one way or the other
+static long
+dialer_dials_done(nng_dialer d)
+{
+	static const char *const names[] = { "connect", "refused", "disconnect", "other", "timeout", "proto", "auth", "oom", "canceled", NULL };
+	nng_listener             nol = NNG_LISTENER_INITIALIZER;
+	return ep_stat_sum(true, d, nol, names);
 }
 
 // ------------------------------------------------------------------ load witness
@@ -2631,6 +2656,131 @@ redial_udp_timeout_case(long idx, vf_rng *r, uint64_t key)
 	close(ufd);
 }
 
+// The listener goes away while connects are waiting on it.  A listener has no
+// accept outstanding while its accept callback is inside the application's
+// ADD_PRE / ADD_POST callback for another connection: an inproc dial made then
+// is parked on the listener (ipc/tcp/ws: the kernel completes the connect and
+// the dialer waits for the listener's hello).  The first client's callback on
+// the listening socket dwells, 1-3 background dialers of the judged socket(s)
+// dial meanwhile, the listener (or its socket) is closed - the dwell ends 5-40
+// ms after the close was issued -, a fresh listener starts at the same address
+// 0-30 ms later, and every judged dialer must get a pipe there within the
+// usual deadline.  Whether the waiting state was reached is measured: a dial
+// that had not come to an end when the close was issued and failed afterwards.
+typedef struct {
+	tsock *ts; // close this socket, or (NULL) ...
+	tep   *le; // ... this listener
+} wclose_arg;
+
+static void *
+wclose_thread(void *arg)
+{
+	wclose_arg *a = arg;
+	if (a->ts != NULL) {
+		sock_close(a->ts);
+	} else {
+		ep_close(a->le);
+	}
+	return NULL;
+}
+
+static void
+redial_waiting_case(long idx, vf_rng *r, uint64_t key, int tran)
+{
+	static const char *lpr[] = { "bus", "pull", "sub", "rep", "pub", "push" };
+	const char        *lname = lpr[vf_below(r, 6)];
+	int                rc    = (int) vf_below(r, 4);
+	int                nd    = (int) vf_range(r, 1, 3);
+	bool               onesock = vf_chance(r, 1, 2); // all judged dialers on one socket
+	bool               sockclose = vf_chance(r, 1, 3);
+	int                dwell_ev = vf_chance(r, 1, 2) ? NNG_PIPE_EV_ADD_PRE : NNG_PIPE_EV_ADD_POST;
+	redial_ctx         c = { tn(tran), reconn[rc][0], reconn[rc][1], reconn_bound(reconn[rc][0], reconn[rc][1]), lname };
+	char               url[128], sk[80];
+	const char        *pt = "none";
+	const char        *cause = "listener-closed-while-connect-waiting";
+	vf_pt_off();
+	if (vf_chance(r, 1, 2)) {
+		vf_pt_jitter(key, 15, 150);
+		pt = "jitter";
+	}
+	vf_case_begin(idx, "redial tran=%s waiting-on-busy-listener listening=%s dialers=%d%s reconn=%d/%d dwell-in=%s close=%s perturb=%s key=%llx", c.tran, lname, nd,
+	    onesock ? "(one socket)" : "", c.rmin, c.rmax, evname[dwell_ev], sockclose ? "socket" : "listener", pt, (unsigned long long) key);
+	late_reset();
+	tsock *L = sock_open(lname, key ^ 5, 0, 0, 0);
+	c.proto  = L->proto->peer_name;
+	tep *le  = add_listener(L, tran);
+	if (le == NULL) vf_harness_fail("listener");
+	snprintf(url, sizeof(url), "%s", le->url);
+	L->dwell_ev = dwell_ev;
+	atomic_store(&L->dwell_n, 1);
+	// the first client keeps the listener busy
+	tsock *C0 = sock_open(L->proto->peer_name, key ^ 6, 0, 0, 0);
+	if (add_dialer(C0, tran, url, 5, 20, false) == NULL) vf_harness_fail("first dialer");
+	uint64_t end = vf_now_ns() + 3000000000ULL;
+	while (atomic_load(&L->dwelling) != 1 && vf_now_ns() < end) vf_usleep(200);
+	if (atomic_load(&L->dwelling) != 1) {
+		vf_stat("waiting_dwell_not_reached", 1);
+		atomic_store(&L->dwell_release, 1);
+		close_all_and_check("redial", lname);
+		return;
+	}
+	// the judged dialers dial while the listener is busy
+	tsock *D[3];
+	tep   *de[3];
+	for (int i = 0; i < nd; i++) {
+		D[i]  = (i == 0 || !onesock) ? sock_open(L->proto->peer_name, key ^ (uint64_t) (10 + i), 0, 0, 0) : D[0];
+		de[i] = add_dialer(D[i], tran, url, c.rmin, c.rmax, vf_chance(r, 1, 4));
+		if (de[i] == NULL || atomic_load(&de[i]->open) != 1) vf_harness_fail("dialer start");
+	}
+	vf_usleep((int) vf_range(r, 500, 5000));
+	// who is still waiting (no dial has come to an end, no pipe)?
+	bool parked[3];
+	long fail0[3];
+	for (int i = 0; i < nd; i++) {
+		fail0[i]  = ep_failures(true, de[i]->d, de[i]->l);
+		parked[i] = atomic_load(&L->dwelling) == 1 && dialer_dials_done(de[i]->d) == 0 &&
+		    log_find(0, D[i]->ring, NNG_PIPE_EV_ADD_PRE, de[i]->id, NULL) < 0;
+		if (parked[i]) vf_stat("waiting_dials_parked_at_close", 1);
+	}
+	// close the listener (or its socket); the slow callback returns 5-40 ms later
+	pthread_t  ct;
+	wclose_arg ca = { sockclose ? L : NULL, le };
+	if (pthread_create(&ct, NULL, wclose_thread, &ca) != 0) vf_harness_fail("pthread_create");
+	vf_msleep((int) vf_range(r, 5, 40));
+	for (int i = 0; i < nd; i++) {
+		// (the close has told the waiting dials by now, or it never will)
+		if (parked[i] && ep_failures(true, de[i]->d, de[i]->l) > fail0[i]) {
+			vf_stat("waiting_dials_failed_by_close", 1);
+			snprintf(sk, sizeof(sk), "waiting_dials_failed_by_close_%s", c.tran);
+			vf_stat(sk, 1);
+		}
+	}
+	atomic_store(&L->dwell_release, 1);
+	pthread_join(ct, NULL);
+	vf_msleep((int) vf_below(r, 31));
+	// a fresh listener at the same address
+	tsock *L2 = sockclose ? sock_open(lname, key ^ 7, 0, 0, 0) : L;
+	int    from = log_len();
+	tep   *le2 = relisten(L2, tran, url);
+	if (le2 == NULL) {
+		vf_stat("relisten_failed", 1);
+		close_all_and_check("redial", lname);
+		return;
+	}
+	uint64_t t0 = vf_now_ns();
+	vf_stat("waiting_cases", 1);
+	snprintf(sk, sizeof(sk), "waiting_cases_%s", c.tran);
+	vf_stat(sk, 1);
+	for (int i = 0; i < nd; i++) {
+		evrec pre;
+		vf_stat("waiting_dialers_judged", 1);
+		if (wait_pre(from, D[i], de[i]->id, t0, &c, cause, &pre) < 0) break;
+	}
+	vf_class("redial/%s/%s/%s/%s-close/reconn=%d-%d", c.tran, cause, evname[dwell_ev], sockclose ? "socket" : "listener", c.rmin, c.rmax);
+	late_report(&c);
+	close_all_and_check("redial", lname);
+}
+
 static void
 redial_case(long idx)
 {
@@ -2639,8 +2789,11 @@ redial_case(long idx)
 	vf_rng_seed(&r, vf_seed, (uint64_t) idx);
 	key = vf_rand(&r);
 	case_reset();
-	uint32_t w = vf_below(&r, 13);
-	if (w == 12) {
+	uint32_t w = vf_below(&r, 14);
+	if (w == 13) {
+		uint32_t t = vf_below(&r, 10);
+		redial_waiting_case(idx, &r, key, t < 6 ? VF_T_INPROC : t < 8 ? VF_T_IPC : t < 9 ? VF_T_TCP : VF_T_WS);
+	} else if (w == 12) {
 		redial_udp_timeout_case(idx, &r, key);
 	} else if (w == 11) {
 		redial_backoff_stats_case(idx, &r, key, vf_chance(&r, 1, 2) ? VF_T_WS : VF_T_INPROC);
